@@ -24,12 +24,14 @@ Nodes(K) ==
     \cup { <<"obj", "B", <<k1, k2>>>> : k1 \in K, k2 \in K }
     \cup { <<"list", <<>>>> } \cup { <<"list", <<k>>>> : k \in K } \cup { <<"list", <<k1, k2>>>> : k1 \in K, k2 \in K }
     \cup { <<"tuple", <<k1, k2>>>> : k1 \in K, k2 \in K }
-    \cup { <<"dict", << <<"k1", k1>>, <<"k2", k2>> >>>> : k1 \in K, k2 \in K }
+    \cup { <<"dict", << <<"k2", k1>>, <<"k1", k2>> >>>> : k1 \in K, k2 \in K }      \* (the first key is the greater one)
 
 L1 == Nodes(Leaves \cup Shareds)
 Mid == { <<"obj", "Z", <<>>>>, <<"obj", "A", << <<"leaf", "none">> >>>>, <<"list", << <<"leaf", "int1">>, <<"leaf", "none">> >>>>,
          <<"obj", "B", << <<"leaf", "none">>, <<"leaf", "none">> >>>>, <<"tuple", << <<"shared", 1>>, <<"leaf", "dstr", 1>> >>>>,
-         <<"dict", << <<"k1", <<"shared", 1>>>>, <<"k2", <<"leaf", "int1">>>> >>>>,
+         <<"dict", << <<"k2", <<"shared", 1>>>>, <<"k1", <<"leaf", "int1">>>> >>>>,
+         \* a tuple holding an unhashable value (a list)
+         <<"tuple", << <<"list", << <<"leaf", "int1">> >>>>, <<"leaf", "none">> >>>>,
          \* a list holding a shared object FOLLOWED by another object: nested in lists, tuples, dicts; next to the shared
          \* object itself it is the case "met again later, at a shallower place"
          <<"list", << <<"shared", 1>>, <<"obj", "Z", <<>>>> >>>> }
@@ -48,7 +50,7 @@ CbVecs == { <<"id">>, <<"AtoZ">>, <<"Bswap">>, <<"Achild">>, <<"Zleaf">>, <<"Bli
 
 CbSeq == << <<"id">>, <<"AtoZ">>, <<"Bswap">>, <<"Achild">>, <<"Zleaf">>, <<"Blist">>,
             <<"AtoZ", "Zleaf">>, <<"Bswap", "Achild">>, <<"Achild", "AtoZ">>, <<"id", "Bswap">>,
-            <<"Acopy">>, <<"Acopy", "Bswap">> >>
+            <<"Acopy">>, <<"Acopy", "Bswap">>, <<"Nest", "AtoZ">>, <<"Bswap", "Nest", "Zleaf">> >>
 
 Step == /\ ~done
         /\ done' = TRUE
